@@ -697,6 +697,10 @@ def acc7(cfg):
             acc.append((bn.split('.')[-1], None if k is None else int(k), e.get('loc')))
         n += 1
         res.functions.add(f.sig)
+        if not acc or any(a not in ('node_counts', 'growing_inode_counts', 'shrinking_inode_counts') or k is None for a, k, loc in acc):
+            # goes through another accessor / a computed index: shape not recognised, no verdict
+            res.incompl('ACC-7: %s<%s> does not index one of the statistics arrays with a constant (%s)' % (f.short, m.group(1), [(a, k) for a, k, loc in acc]))
+            continue
         ok = len(acc) >= 1 and all(a == arr and k == v + off for a, k, loc in acc)
         res.ob(ok, {'rule': 'ACC-7', 'function': '%s::%s<%s>' % ('olc_db' if 'olc_db' in f.cls else 'db', f.short, m.group(1)), 'accesses': [(a, k) for a, k, loc in acc], 'required': (arr, v + off), 'verdict': 'discharged' if ok else 'VIOLATION'} if n < 120 else None)
         if not ok:
